@@ -107,8 +107,11 @@ def run(rep, tier, build, replay=None):
             # last index wins among listed ids; compare status/definition across interleavings with the same
             # relative order of the index files
             forder = tuple(o[1] for o in h['ops'][:-1] if o[0] == 'ili')
+            # ... and the same relative order of the lexicons: the definition of an ILI that only lexicons mention comes
+            # from the first lexicon declaring it, which the property does not constrain (false alarm corrected, DESIGN E.6)
+            lorder = tuple(o[1]['lexicons'][0]['id'] + ':' + o[1]['lexicons'][0]['version'] for o in h['ops'] if o[0] == 'add')
             v = ili_view(before)
-            prev = finals.setdefault((key, forder), (v, case))
+            prev = finals.setdefault((key, forder, lorder), (v, case))
             if prev[0] != v:
                 d = {i: (prev[0].get(i), v.get(i)) for i in set(v) | set(prev[0]) if prev[0].get(i) != v.get(i)}
                 rep.fail('ILI statuses/definitions depend on whether the index is loaded before or after the lexicons',
